@@ -66,7 +66,7 @@ CHECKS["C12"] = dict(
   level="exploration", design="§4 C12, §12, spec/Determinism.tla, spec/Trace_Determinism.tla",
   technique="TLA+ site table (sorted / ranged x contribution) checked over all permutations by TLC (MC_Determinism); map-fat and corpus specs generated repeatedly in one process and in separate processes; equality of results and file hashes judged by TLC (Trace_Determinism)",
   text="Design check: for every site of the site table and every permutation of 4 keys the emitted sequence is schedule independent (it is not for the pinned tree's three ranged sites, cfg v0). Code: a map-fat spec with >= 4 entries in every map-typed construct, the kitchen and carrier specs and a seeded sample of matrix cells are each generated 24 (thorough 96) times across separate processes; every run of one input must give the same result (or the same error text) and identical sha256 per file. Schedules of Go's map iteration are sampled, not enumerated (exploration).",
-  note="With k >= 4 entries and a first-key-wins or whole-order site, a pair of runs differs with probability >= 3/4, so 24 runs miss an influencing site with probability <= 4^-23. The site table is a model; unlisted ranged sites would still be caught by the hash comparison if the corpus exercises them.")
+  note="Also: in every other process another invocation (other spec, CORS on, no header, a base path) runs before each run of the spec under test, an extension-fat spec carries the x- keys goag reads next to other generators' spellings, and `goag --dir` is model-checked (spec/Batch.tla: Independent, FailsAtFirst, PrefixDone) and all 84 batches of MC_Batch are generated by the real GenerateDir in fresh processes and judged by Trace_Batch. With k >= 4 entries and a first-key-wins or whole-order site, a pair of runs differs with probability >= 3/4, so 24 runs miss an influencing site with probability <= 4^-23. The site table is a model; unlisted ranged sites would still be caught by the hash comparison if the corpus exercises them.")
 
 STREAM_NOTE = " Bodies reach the generated code through a reader that replays, scaled to the body, every complete behaviour of the source of spec/Stream.tla (short / empty reads, end announced with or after the last bytes, failure after Close): 162 behaviours (thorough 1458), design-checked by MC_Stream (Complete, NoUseAfterClose, Conserved, Terminates)."
 CODEC_NOTE = "Besides the enumerated universe of MC_Codec every run takes 150 (thorough: 1200) seeded random schema compositions nested to depth 3 over all constructs (randschema.go). Values are compared by projection (nil = empty collections, times as instants). JSON leaves are tokenised by strconv / time.Parse (trusted). Struct fields are bound to properties by normalised name. Schemas whose generated code does not build are excluded by the pre-flight and counted (C01 owns them). One open finding (named date-time component) carries a TLA+ selector."
